@@ -21,22 +21,25 @@ Q == <<"q">>
 F(dir, base, suffix, content) == [dir |-> dir, base |-> base, suffix |-> suffix, content |-> content]
 \* content ids: 1,2 = two versions of the generator source a; 3 plain sibling; 4 test source;
 \* 5 second source b; 6 source that imports but does not use the API; 7 sub-package source; 8 source of package q
-Uses == [c \in 1..20 |-> c \in {1, 2, 4, 5, 7, 8}]
+\* 9 = a source of p that imports the sub-package p/sub (only meaningful while p/sub/c_co.go exists)
+Uses == [c \in 1..20 |-> c \in {1, 2, 4, 5, 7, 8, 9}]
 GenOf(c) == 100 + c
 Base == {F(P, "a", "_co.go", 1)}
 Optional == {F(P, "types", ".go", 3), F(P, "a", "_co_test.go", 4), F(P, "b", "_co.go", 5),
-             F(P, "noapi", "_co.go", 6), F(Sub, "c", "_co.go", 7), F(Q, "d", "_co.go", 8)}
+             F(P, "noapi", "_co.go", 6), F(Sub, "c", "_co.go", 7), F(Q, "d", "_co.go", 8), F(P, "usesub", "_co.go", 9)}
+\* a file system is well formed when every import can be resolved: usesub needs the sub-package's source
+DepOK(s) == F(P, "usesub", "_co.go", 9) \in s => F(Sub, "c", "_co.go", 7) \in s
 
 VARIABLES fs, script, stale
 vars == <<fs, script, stale>>
-Init == /\ \E opt \in SUBSET Optional : Cardinality(opt) <= 2 /\ fs = Base \cup opt
+Init == /\ \E opt \in SUBSET Optional : Cardinality(opt) <= 2 /\ fs = Base \cup opt /\ DepOK(fs)
         /\ script = <<[op |-> "init", files |-> {Path(f) : f \in fs}]>> /\ stale = FALSE
 Step(a) == script' = Append(script, a)
 Gen(d) == /\ \E f \in fs : Under(f, d)                                   \* d is a package directory: it holds Go files
           /\ fs' = GoGenResult(fs, d, Uses, GenOf) /\ stale' = FALSE     \* the tool leaves no temporary directory
           /\ Step([op |-> "gen", dir |-> d])
-Add == \E f \in Optional : Path(f) \notin {Path(g) : g \in fs} /\ fs' = fs \cup {f} /\ Step([op |-> "add", file |-> Path(f)]) /\ UNCHANGED stale
-Del == \E f \in fs : f \in Optional /\ fs' = fs \ {f} /\ Step([op |-> "del", file |-> Path(f)]) /\ UNCHANGED stale
+Add == \E f \in Optional : Path(f) \notin {Path(g) : g \in fs} /\ DepOK(fs \cup {f}) /\ fs' = fs \cup {f} /\ Step([op |-> "add", file |-> Path(f)]) /\ UNCHANGED stale
+Del == \E f \in fs : f \in Optional /\ DepOK(fs \ {f}) /\ fs' = fs \ {f} /\ Step([op |-> "del", file |-> Path(f)]) /\ UNCHANGED stale
 Edit == /\ F(P, "a", "_co.go", 1) \in fs
         /\ fs' = (fs \ {F(P, "a", "_co.go", 1)}) \cup {F(P, "a", "_co.go", 2)} /\ Step([op |-> "edit"]) /\ UNCHANGED stale
 Stale == ~stale /\ stale' = TRUE /\ Step([op |-> "stale"]) /\ UNCHANGED fs
